@@ -47,8 +47,11 @@ the text the reference model was written against) so that the Coq development st
   d = {} ; d[k] = v ; d[k]    a local dict of optional values: [], sset k v d, sget k d (key known to be present)
   x is None / is not None / is _marker / is not _marker      on optional values: match; on values of known shape: static
   a == b / a != b         text_eqb a b on attribute names (texts)
-  parameters              self/request/obj -> the request; request=None of invoke_exception_view -> None (the harness
-                          never passes it); exc_info -> either given or sys.exc_info(): both the triple of the
+  parameters              request (tweens), obj (hide_attrs) -> the request being rendered; invoke_exception_view: self is the
+                          request the method is called on, request= is optional: `request is None` -> `oth` is false and
+                          self IS the rendered request; otherwise request is the rendered one and self ANOTHER object
+                          whose __dict__ operations are ctl_get/ctl_set/ctl_del/ctl_mem (write events) and whose
+                          request_iface is IRequest (an unrouted request); exc_info -> either given or sys.exc_info(): both the triple of the
                           exception e being handled; secure -> sec, reraise -> rr; tp/tb of reraise: class / traceback
   getattr(request, 'registry', None), get_current_registry()   a registry, not None
   sys.exc_info()          the triple of the exception being handled;  exc_info[1] its object;  *exc_info = (tp, e, tb)
@@ -153,6 +156,23 @@ class Tr:
         self.n = max(n1, self.n)
         return a, b
 
+    # ------------------------------------------------------------ which request object
+    def comp_of(self, v, env):
+        """'attrs': the request being rendered (its __dict__ is the attribute map of the threaded state);
+        'ctl': the request the method was called on when ANOTHER request was passed as request= (its writes are
+        ECtlW events).  `self` is the former iff request= was omitted."""
+        if v.ty != 'req':
+            raise Problem('not a request: %s' % v.ty)
+        if v.who == 'target':
+            return 'attrs'
+        if '$oth' not in env:
+            raise Problem('self is used before `request is None` was decided')
+        return 'ctl' if env['$oth'] else 'attrs'
+
+    @staticmethod
+    def op(comp, name):
+        return ('st_' if comp == 'attrs' else 'ctl_') + name
+
     # ------------------------------------------------------------ expressions
     def ev(self, e, env):
         if isinstance(e, ast.Constant):
@@ -185,11 +205,11 @@ class Tr:
         if isinstance(e, ast.Attribute):
             b = self.ev(e.value, env)
             if e.attr == '__dict__' and b.ty == 'req':
-                return Val('attrs')
+                return Val('attrs', comp=self.comp_of(b, env))
             if e.attr == 'combined' and b.ty == 'riface':
-                return Val('riface', combined=True)
+                return Val('riface', combined=True, own=b.own)
             if e.attr == 'exception' and b.ty == 'req':
-                return Val('optobj', 'st_get %s %s' % (coq_text('exception'), env['$st']))
+                return Val('optobj', '%s %s %s' % (self.op(self.comp_of(b, env), 'get'), coq_text('exception'), env['$st']))
             if e.attr == '__traceback__' and b.ty == 'obj':
                 return Val('tb')
             raise Problem('attribute %s' % u(e))
@@ -227,7 +247,7 @@ class Tr:
             if isinstance(e.func, ast.Attribute) and e.func.attr == 'get' and len(args) == 2 \
                     and self.ev(e.func.value, env).ty == 'attrs' and args[0].ty == 'str' \
                     and args[0].py == 'request_iface' and args[1].ty == 'global' and args[1].py == 'IRequest':
-                return Val('riface', combined=False)
+                return Val('riface', combined=False, own=self.ev(e.func.value, env).comp == 'attrs')
             if isinstance(e.func, ast.Attribute) and e.func.attr == 'with_traceback' and len(args) == 1 \
                     and self.ev(e.func.value, env).ty == 'obj' and args[0].ty == 'tb':
                 return self.ev(e.func.value, env)
@@ -260,6 +280,16 @@ class Tr:
                 if rv.ty in ('none', 'marker'):
                     if lv.ty == 'untracked' or rv.ty == 'untracked':
                         return self.merge(*self.pair(lambda: kt(env), lambda: kf(env)), u(t))
+                    if lv.ty == 'optreq':
+                        # request= given (oth) or omitted: from here on `self` is / is not the rendered request
+                        en_t = dict(env)
+                        en_t['$oth'] = False
+                        en_f = dict(env)
+                        en_f['$oth'] = True
+                        if isinstance(l, ast.Name):
+                            en_f[l.id] = Val('req', who='target')
+                        a, b = self.pair(lambda: (kf if neg else kt)(en_t), lambda: (kt if neg else kf)(en_f))
+                        return self.ite('oth', b, a)
                     if lv.ty in ('optobj', 'optresp', 'optexcinfo'):
                         return self.optmatch(l, lv, env, kf if neg else kt, kt if neg else kf)
                     isnone = lv.ty == rv.ty
@@ -270,7 +300,8 @@ class Tr:
             if isinstance(op, ast.In):
                 lv, rv = self.ev(l, env), self.ev(r, env)
                 if rv.ty == 'attrs' and lv.ty in ('str', 'text'):
-                    return self.ite('st_mem %s %s' % (lv.term, env['$st']), *self.pair(lambda: kt(env), lambda: kf(env)))
+                    return self.ite('%s %s %s' % (self.op(rv.comp, 'mem'), lv.term, env['$st']),
+                                    *self.pair(lambda: kt(env), lambda: kf(env)))
                 raise Problem('membership test %s' % u(t))
             if isinstance(op, (ast.Eq, ast.NotEq)):
                 lv, rv = self.ev(l, env), self.ev(r, env)
@@ -431,14 +462,15 @@ class Tr:
                         and s.value.func.attr == 'pop' and self.ev(s.value.func.value, env).ty == 'attrs' \
                         and len(s.value.args) == 2 and self.ev(s.value.args[1], env).ty == 'marker':
                     pk = self.ev(s.value.args[0], env)
-                    val = Val('optobj', 'st_get %s %s' % (pk.term, env['$st']))
-                    en['$st'] = '(st_del %s %s)' % (pk.term, env['$st'])
+                    pc = self.ev(s.value.func.value, env).comp
+                    val = Val('optobj', '%s %s %s' % (self.op(pc, 'get'), pk.term, env['$st']))
+                    en['$st'] = '(%s %s %s)' % (self.op(pc, 'del'), pk.term, env['$st'])
                 else:
                     val = self.ev(s.value, env)
                 if tgt.ty == 'attrs':
                     if val.ty not in ('obj', 'excinfo'):
                         raise Problem('value stored in the request: %s' % u(s.value))
-                    en['$st'] = '(st_set %s %s %s)' % (key.term, val.term, en['$st'])
+                    en['$st'] = '(%s %s %s %s)' % (self.op(tgt.comp, 'set'), key.term, val.term, en['$st'])
                     return k.normal(en)
                 if tgt.ty == 'dict':
                     if val.ty != 'optobj':
@@ -450,7 +482,8 @@ class Tr:
             t = s.targets[0]
             if self.ev(t.value, env).ty == 'attrs':
                 key = self.ev(t.slice, env)
-                return k.normal(self.set_state(env, '(st_del %s %s)' % (key.term, env['$st'])))
+                return k.normal(self.set_state(env, '(%s %s %s)' % (self.op(self.ev(t.value, env).comp, 'del'), key.term,
+                                                                     env['$st'])))
             raise Problem('del %s' % u(s))
         if isinstance(s, ast.If):
             return self.branch(s.test, env, lambda en: self.block(s.body, en, k),
@@ -485,7 +518,7 @@ class Tr:
         if isinstance(s, ast.With) and len(s.items) == 1 and s.items[0].optional_vars is None:
             ce = s.items[0].context_expr
             if not (isinstance(ce, ast.Call) and u(ce.func) == 'hide_attrs' and ce.args and not ce.keywords
-                    and self.ev(ce.args[0], env).ty == 'req'
+                    and self.ev(ce.args[0], env).ty == 'req' and self.comp_of(self.ev(ce.args[0], env), env) == 'attrs'
                     and all(isinstance(a, ast.Constant) and isinstance(a.value, str) for a in ce.args[1:])):
                 raise Problem('with %s' % u(ce))
             names = '[' + '; '.join(coq_text(a.value) for a in ce.args[1:]) + ']'
@@ -575,13 +608,14 @@ class Tr:
                 raise Problem('call %s' % u(c))
             if sig.get('request') is not None:
                 raise Problem('invoke_exception_view: the default of request= is not None')
-            term = 'gen_iev P W ri site %s %s %s %s' % (
+            term = 'gen_iev P W ri false site %s %s %s %s' % (
                 'true' if sig['reraise'] else 'false', 'true' if sig['secure'] else 'false', a[0].term, st)
             return self.outcome_match(term, env, after, k)
         if f == '_call_view':
             a = [self.ev(x, env) for x in c.args]
             kw = {x.arg: self.ev(x.value, env) for x in c.keywords}
-            ok = len(a) == 5 and a[0].ty == 'registry' and a[1].ty == 'req' and a[2].ty == 'obj' \
+            ok = len(a) == 5 and a[0].ty == 'registry' and a[1].ty == 'req' and self.comp_of(a[1], env) == 'attrs' \
+                and a[2].ty == 'obj' \
                 and a[3].ty == 'ctxiface' and a[3].term == a[2].term and a[4].ty == 'str' \
                 and set(kw) == {'view_types', 'view_classifier', 'secure', 'request_iface'} \
                 and kw['view_types'].ty == 'none' and kw['view_classifier'].ty == 'global' \
@@ -589,8 +623,9 @@ class Tr:
                 and kw['request_iface'].ty == 'riface'
             if not ok:
                 raise Problem('_call_view arguments: %s' % u(c))
-            rq = '(exc_request_raw %s %s W ri %s)' % ('true' if kw['request_iface'].combined else 'false',
-                                                     a[4].term, a[2].term)
+            rq = '(exc_request_raw %s %s %s W ri %s)' % ('true' if kw['request_iface'].own else 'false',
+                                                        'true' if kw['request_iface'].combined else 'false',
+                                                        a[4].term, a[2].term)
             term = 'prim_call_view P W ri site %s %s %s %s' % (kw['secure'].term, a[2].term, rq, st)
             r, e, st2 = self.fresh('r'), self.fresh('e'), self.fresh('st')
             en = self.set_state(env, st2)
@@ -658,7 +693,7 @@ def translate(src):
     if ps != ['obj'] or va is None or not any(u(d) == 'contextmanager' for d in fn.decorator_list):
         raise Problem('hide_attrs: signature / decorator')
     tr = Tr('hide_attrs', 'ctxmgr', {'ret': 'wres A * state'})
-    env = {'obj': Val('req'), va: Val('names', 'names'), '$st': 'st'}
+    env = {'obj': Val('req', who='target'), va: Val('names', 'names'), '$st': 'st'}
     k = K(lambda en: '(%s, %s)' % ('WNorm ' + en['$yield'] if '$yield' in en else _no('hide_attrs ends without yield'),
                                   en['$st']),
           lambda v, en: _no('hide_attrs returns'), lambda e, en: '(WExn %s, %s)' % (e, en['$st']))
@@ -685,14 +720,14 @@ def translate(src):
             dflt != {'exc_info': None, 'request': None, 'secure': True, 'reraise': False}:
         raise Problem('invoke_exception_view: signature %s %s' % (ps, dflt))
     tr = Tr('invoke_exception_view', 'outcome', {})
-    env = {'self': Val('req'), 'exc_info': Val('optexcinfo', 'optinfo'), 'request': Val('none'),
+    env = {'self': Val('req', who='self'), 'exc_info': Val('optexcinfo', 'optinfo'), 'request': Val('optreq'),
            'secure': Val('bool', 'sec'), 'reraise': Val('bool', 'rr'), '$st': 'st', '$handled': 'e'}
     k = K(lambda en: _no('invoke_exception_view ends without return'),
           lambda v, en: '(%s, %s)' % (_resp_term(v), en['$st']), lambda e, en: '(Raise %s, %s)' % (e, en['$st']))
     body = tr.block(fn.body, env, k)
     if 'optinfo' in body:
         raise Problem('invoke_exception_view: the result depends on whether exc_info was passed')
-    out['gen_iev'] = ('Definition gen_iev (P : params) (W : world) (ri : rinfo) (site : N) (rr sec : bool) (e : N) '
+    out['gen_iev'] = ('Definition gen_iev (P : params) (W : world) (ri : rinfo) (oth : bool) (site : N) (rr sec : bool) (e : N) '
                       '(st : state) : outcome * state :=\n  %s.' % body)
 
     # _error_handler
@@ -701,7 +736,7 @@ def translate(src):
     if ps != ['request', 'exc'] or va:
         raise Problem('_error_handler: signature')
     tr = Tr('_error_handler', 'outcome', {'iev_defaults': dflt})
-    env = {'request': Val('req'), 'exc': Val('obj', 'e'), '$st': 'st', '$handled': 'e'}
+    env = {'request': Val('req', who='target'), 'exc': Val('obj', 'e'), '$st': 'st', '$handled': 'e'}
     k = K(lambda en: _no('_error_handler ends without return'),
           lambda v, en: '(%s, %s)' % (_resp_term(v), en['$st']), lambda e, en: '(Raise %s, %s)' % (e, en['$st']))
     out['gen_error_handler'] = ('Definition gen_error_handler (P : params) (W : world) (ri : rinfo) (site : N) (e : N) '
@@ -718,7 +753,7 @@ def translate(src):
     if not (isinstance(last, ast.Return) and u(last.value) == 'excview_tween'):
         raise Problem('excview_tween_factory does not return excview_tween')
     tr = Tr('excview_tween', 'outcome', {})
-    env = {'request': Val('req'), '$st': 'st'}
+    env = {'request': Val('req', who='target'), '$st': 'st'}
     out['gen_excview_tween'] = ('Definition gen_excview_tween (P : params) (W : world) (ri : rinfo) (site : N) '
                                 '(ho : outcome) (st : state) : outcome * state :=\n  %s.' % tr.block(fn.body, env, k))
 
@@ -728,7 +763,7 @@ def translate(src):
     if ps != ['context', 'request'] or va:
         raise Problem('default_exceptionresponse_view: signature')
     tr = Tr('default_exceptionresponse_view', 'pure', {})
-    env = {'context': Val('obj', 'ctx'), 'request': Val('req'), '$st': 'st'}
+    env = {'context': Val('obj', 'ctx'), 'request': Val('req', who='target'), '$st': 'st'}
 
     def ret_obj(v, en):
         if v.ty != 'obj':
